@@ -133,9 +133,12 @@ def shard_plays(ctx, payload):
     n = payload
     rng = random.Random(derive_seed(ctx.seed, 'C02-plays', ctx.shard))
     on_call = make_on_call(ctx)
-    for _ in range(n):
-        hjplay.random_play(rng.randrange, on_call, noise=20, nmin=1)
-        ctx.label('play')
+    for i in range(n):
+        # one play in six hands the bar heights over as floats (1 cm and 5 cm steps): callers do, and 2.01 is not
+        # exactly representable - the rules are about the heights, not about their binary representation
+        fh = (i % 6 == 5)
+        hjplay.random_play(rng.randrange, on_call, noise=20, nmin=1, float_heights=fh)
+        ctx.label('play-float-heights' if fh else 'play')
 
 
 def make_machine(ctx):
